@@ -19,7 +19,7 @@ CHECKS = {
              "(out-of-order and duplicate times, None values, all mutating ops, reopen/reindex) is compared with an independent "
              "reference model evaluated by an interpreter that shares no code with tinyflux; reach counters gate the verdict "
              "(both serving paths, every configuration, partial/empty/full results).",
-        note="Held on the executions listed in the evidence; model = documented semantics (docs/ + docstrings); query depth <= 3, <= 12 rows, registry test/map functions, aware comparison values, TZ=UTC.",
+        note="Held on the executions listed in the evidence; model = documented semantics (docs/ + docstrings); query depth <= 3 for generated ASTs; 12 / 45 / 700 (thorough: 3000) rows; registry test/map functions; aware comparison values; workers rotate time zone, warnings-as-errors and DEBUG logging (see DESIGN 6.2 for the strata).",
     ),
     "C02": dict(
         category="exploration", design_ref="DESIGN.md 3 C02",
@@ -27,7 +27,7 @@ CHECKS = {
         text="Return value, survivors (order included) and every later query/getter read after remove/drop_measurement/remove_all "
              "are checked against the model in 4 configurations; no-match removals must leave CSV bytes unchanged; later-read "
              "differences are attributed to the removal only when a history-free twin with the same contents answers correctly.",
-        note="Histories contain inserts, removals, reindex and reopen only; <= 12 rows; queries depth <= 3.",
+        note="Histories contain inserts (also batches failing part-way), removals, reindex and reopen only; 12 / 45 / 700 rows; queries depth <= 3.",
     ),
     "C03": dict(
         category="exploration", design_ref="DESIGN.md 3 C03",
@@ -71,7 +71,7 @@ CHECKS = {
         technique="runtime monitoring: reference-model oracle on every getter / len / iter / all after every mutation, index- and scan-served",
         text="All exploration getters, len, iteration and all() (db, filtered, handle; present/absent measurement; tag_keys selections) "
              "are compared with the model after every mutating op of seeded histories in 4 configurations, incl. None/''/line-break values.",
-        note="Documented order taken from docs/exploring-data.rst; <= 12 rows.",
+        note="Documented order taken from docs/exploring-data.rst; 12 / 45 / 700 rows.",
     ),
     "C08": dict(
         category="exploration", design_ref="DESIGN.md 3 C08",
@@ -81,7 +81,7 @@ CHECKS = {
              "or naive-local datetimes go through insert, update(time=static|callable), reopen and time-less stamping; every returned "
              "time must be tz-UTC aware and the exact instant; all six comparisons at every stored instant +-1us with the comparison "
              "value in random zones are compared with integer comparison (index- and scan-served); sorted results stable on ties.",
-        note="years 1700-2240; comparison values timezone-aware; at DST gaps/folds either PEP 495 reading of a naive value is accepted.",
+        note="years 1700-2240; comparison values timezone-aware; a naive value inside a repeated hour means the occurrence its fold attribute names (PEP 495); non-existent wall times are not generated.",
     ),
     "C09": dict(
         category="exploration", design_ref="DESIGN.md 3 C09",
@@ -98,7 +98,7 @@ CHECKS = {
              "(fresh, stale after cache clearing, absent names) is compared with the model restricted to name and with the equivalent "
              "database operation (on the live db for reads, on a deepcopy/file-copy twin for writes); points of other measurements must "
              "be untouched and never returned; inserted points must land under name.",
-        note="measurement names non-empty; <= 12 rows; a defect shared identically by handle and database operation is not attributed to C10.",
+        note="measurement names non-empty; 12 / 45 rows; a defect shared identically by handle and database operation is not attributed to C10 (C06/C07 report those).",
     ),
     "C11": dict(
         category="fault_enumeration", design_ref="DESIGN.md 3 C11",
@@ -126,7 +126,7 @@ CHECKS = {
              "the caller as OSError, the live object must fail or answer consistently with its own storage (index battery vs rebuild, "
              "len, all), the file after close must decode to old or new, and the database must reopen and accept writes. Real errnos "
              "from strace (write/fsync/ftruncate/rename/openat...) re-validate a sample.",
-        note="single fault per operation; injected at call boundaries inside tinyflux.storages.",
+        note="single fault per operation; injected at call boundaries inside tinyflux.storages (before the call; for flush/fsync/close also after it took effect) and, under strace, at system calls.",
     ),
     "C14": dict(
         category="exploration", design_ref="DESIGN.md 3 C14",
@@ -160,7 +160,7 @@ CHECKS = {
         text="For all ordered pairs of ~1.5k (quick) / ~7k (thorough) expressions the real == is called; equal pairs must have equal truth "
              "vectors over the 120-point universe and equal hashes; a&b == b&a and a|b == b|a for all operand pairs incl. mixed "
              "simple/compound; expressions with map() equal nothing.",
-        note="exhaustive over the stated expression set; noop() excluded from commutativity (equals nothing by construction).",
+        note="exhaustive over the stated expression set (de-duplicated by repr, so 1 / 1.0 / True twins stay apart); a bare noop() equals nothing by construction, compounds containing one take part in commutativity.",
     ),
     "C18": dict(
         category="exploration", design_ref="DESIGN.md 3 C18",
